@@ -5,3 +5,10 @@ package gobeansdb
 import "github.com/douban/gobeansdb/store"
 
 func VerifNewStorageClient(h *store.HStore) *StorageClient { return &StorageClient{h} }
+
+// VerifSetStorage points the admin HTTP handlers (web.go) at a store, as Main() does.
+func VerifSetStorage(h *store.HStore) {
+	if storage == nil || storage.hstore != h {
+		storage = &Storage{hstore: h}
+	}
+}
